@@ -180,4 +180,23 @@ PROPS = {
         "shards": {"quick": 2, "thorough": 16},
         "no_panic": ["promise "],
     },
+    "C12": {
+        "modules": ["Capnp.Props.C12"],
+        "gen": False,
+        "confirm": True,
+        "rule": "sequential scripts of 4-15 operations on a real server.Server (MaxConcurrentCalls 1-3, AnswerQueueSize 1-3) with an "
+                "instrumented method implementation driven by ack / return / fail commands: calls, acknowledgements, returns, caller "
+                "cancellations, pipelined calls on the answers (queued, blocked on a full queue, after the return), Shutdown; after every "
+                "operation the state of every call, pipelined call, delivery log, start order and shutdown counter is compared with the "
+                "model's settled state (M; an '!' marker from the harness's own oracles makes it a replayable violation); "
+                "stress: 2-8 concurrent callers x 5-60 sequential calls with random ack/return timing, cancellations and a racing Shutdown, "
+                "oracles: cap, one unacknowledged start at a time, per-caller order, every answer resolves with the right value, nothing "
+                "starts after Shutdown returned, user shutdown ran exactly once (S).",
+        "trusted": COMMON_TRUSTED + ["the critical sections of server.go / answer.go are the model's atomic actions (sampled, not proved)",
+                                     "sync.Mutex / channel / context semantics", "returnEmbargoer (pipelining on pipelined answers) is not modelled"],
+        "assumptions": ["calls made concurrently by different goroutines have no defined order: the order statement is about a call made "
+                        "after an earlier call's Send returned"],
+        "shards": {"quick": 4, "thorough": 16},
+        "no_panic": ["server "],
+    },
 }
